@@ -24,7 +24,10 @@ def one(name):
             t = time.time()
             r = subprocess.run([os.path.join(ROOT, 'check'), p], capture_output=True, text=True, cwd=ROOT, env=env)
             lines = [l for l in r.stdout.split('\n') if l.startswith(('VIOLATION', 'UNDECIDED', 'OK', 'KNOWN', 'refuted', 'bounded stand-in', 'undecided unit'))]
-            out[p] = {'rc': r.returncode, 'lines': lines[:10], 's': round(time.time() - t, 1)}
+            rc = r.returncode
+            if rc == 1 and not any(l.startswith('VIOLATION') for l in lines):
+                rc = 3      # the check itself crashed (no VIOLATION line): never counted as a detection
+            out[p] = {'rc': rc, 'lines': lines[:10], 's': round(time.time() - t, 1)}
     finally:
         subprocess.run(['git', '-C', '/repo', 'worktree', 'remove', '--force', wt], capture_output=True)
         shutil.rmtree('/tmp/sweep_out_%s_%s' % (TAG, name), ignore_errors=True)
